@@ -38,7 +38,7 @@ def check(run, replay):
         plans = [("plain", "empty,docs,docs+deleted", 1), ("indexed", "docs,docs+deleted", 1), ("branchable", "docs", 1)]
     else:
         # rotate the residue class of k with the seed so that repeated quick runs cover all positions
-        plans = [("plain", "docs", 3), ("indexed", "docs+deleted", 7)]
+        plans = [("plain", "docs", 3), ("indexed", "docs+deleted", 3)]
     viol, tot = [], dict(runs=0, fault_runs=0)
     samples, opsN = [], {}
     for i, (variant, priors, stride) in enumerate(plans):
